@@ -44,10 +44,23 @@ func RunStrategy(s strategy.Strategy, snaps []*asset.Snapshot, capacity int, opt
 	return r
 }
 
+// rowsSrc is the bar alphabet rowsOf draws from (sigmaBars unless a unit switches it for one pass).
+var rowsSrc = sigmaBars
+
+// fineBars: closes and volumes that differ by one part in 10^4, so that averages weighted differently (VWMA against SMA,
+// a fast against a slow average) differ by about one part in 10^8: decisive in float64 arithmetic and far above rounding,
+// but below the resolution of float32 and of any "close enough" tolerance.
+var fineBars = [][5]float64{
+	{4, 6, 3, 5, 10},
+	{4, 6, 3, 5.0005, 10.001},
+	{4, 6, 3, 4.9995, 9.999},
+	{7, 7, 2, 2, 5},
+}
+
 func rowsOf(word []int) [][5]float64 {
 	rows := make([][5]float64, len(word))
 	for i, s := range word {
-		rows[i] = sigmaBars[s]
+		rows[i] = rowsSrc[s%len(rowsSrc)]
 	}
 	return rows
 }
@@ -172,7 +185,7 @@ func stratTrieUnit(c *core.Ctx, e *cat.Strat, cfg []float64, prop string) {
 				return run
 			}
 			bars := cat.MakeBars(rows)
-			setScale([][]float64{bars.H.V, bars.V.V})
+			setScale([][]float64{bars.H.V})
 			want, ex := expected(e.Rule(cfg, bars), nlen)
 			bad := -1
 			for i := 0; i < nlen && i < len(run.Actions); i++ {
@@ -246,6 +259,12 @@ func stratTrieUnit(c *core.Ctx, e *cat.Strat, cfg []float64, prop string) {
 		return run
 	}
 	walkWords(k, n, visit)
+	if prop == "C06" {
+		// second pass over the fine-difference bars (three symbols plus one ordinary bar)
+		rowsSrc = fineBars
+		walkWords(min(k, len(fineBars)), n, visit)
+		rowsSrc = sigmaBars
+	}
 	// one long series on top of the trie (see indTrieUnit): a de Bruijn series over the five bars with positive range
 	// and volume, thousands of snapshots through one pipeline, judged by the same oracle
 	if prop == "C05" || prop == "C06" {
